@@ -700,6 +700,7 @@ func rulesC06(w *World, r *Report) {
 	w.ruleLoopExits(r, "C06.R3 loop exit discipline", false)
 	w.ruleEveryValueStored(r, "C06.R3 every value read for a container is stored")
 	w.ruleTagReadErrors(r, "C06.R4 failed tag/header reads are errors")
+	w.ruleDecoderErrorsPropagate(r, "C06.R4 a failed read on the decode path surfaces")
 	w.ruleStreamingPersist(r, "C06.R5 streaming entry points keep per-stream state and do not read ahead")
 	include(w, r, "C04")
 }
